@@ -4,23 +4,26 @@ From Grpchan Require Import lib.Int gen.Wire model.Framing proofs.C07.
 Import ListNotations.
 Open Scope Z_scope.
 
-Ltac cmp_cases :=
+Ltac guard_tac :=
+  repeat match goal with
+         | |- context [?a >? ?b] => rewrite (Z.gtb_ltb a b)
+         | |- context [?a >=? ?b] => rewrite (Z.geb_leb a b)
+         end;
   repeat match goal with
          | |- context [?a <? ?b] => destruct (Z.ltb_spec a b)
-         | |- context [?a >? ?b] => rewrite (Z.gtb_ltb a b)
          | |- context [?a <=? ?b] => destruct (Z.leb_spec a b)
-         | |- context [?a >=? ?b] => rewrite (Z.geb_leb a b)
          | |- context [?a =? ?b] => destruct (Z.eqb_spec a b)
-         end.
+         end;
+  cbv beta iota; cbn [orb andb negb]; split; intros; try lia; try discriminate; try reflexivity.
 
 Lemma max_ok : 0 < max_size < 2 ^ 31.
 Proof. unfold max_size. lia. Qed.
 
 Lemma srv_guard n : size_rejected n = false <-> 0 <= n <= max_size.
-Proof. unfold size_rejected, max_size. cmp_cases; cbn; split; intros; try lia; try discriminate; reflexivity. Qed.
+Proof. unfold size_rejected, max_size. guard_tac. Qed.
 
 Lemma cli_guard n : 0 <= n -> (client_size_rejected n = false <-> n <= max_size).
-Proof. intro. unfold client_size_rejected, max_size. cmp_cases; cbn; split; intros; try lia; try discriminate; reflexivity. Qed.
+Proof. intro. unfold client_size_rejected, max_size. guard_tac. Qed.
 
 Local Hint Resolve max_ok srv_guard cli_guard : guards.
 Notation cdecode := (client_decode size_rejected client_size_rejected).
